@@ -13,7 +13,18 @@ import (
 	"reflect"
 	"strconv"
 	"sync"
+	"sync/atomic"
 )
+
+// Progress counts completed operations of the stress runs: the watchdog tells a deadlock (no
+// progress at all) from a slow, loaded machine (progress, however little).
+var Progress int64
+
+// Tick records one completed operation.
+func Tick() { atomic.AddInt64(&Progress, 1) }
+
+// Ticks reads the counter.
+func Ticks() int64 { return atomic.LoadInt64(&Progress) }
 
 var (
 	mu     sync.Mutex
@@ -475,6 +486,7 @@ def stress_src(it, mock, inst):
             else:
                 args.append(mk(p["kind"], 0))
         L.append("\t\t\t\tm.%s(%s)" % (mm["name"], ", ".join(args)))
+    L.append("\t\t\t\trtlib.Tick()")
     L.append("\t\t\t}")
     L.append("\t\t}(g)")
     L.append("\t}")
@@ -488,6 +500,7 @@ def stress_src(it, mock, inst):
     L.append("\t\t\t\tselect { case <-done: return; default: }")
     for mm in it["methods"]:
         L.append("\t\t\t\t{ a := m.%sCalls(); b := m.%sCalls(); _ = rtlib.Records(a); if !withResets && (len(b) < len(a) || (len(a) > 0 && &a[0] != &b[0] && rtlib.Records(a) != rtlib.Records(b[:len(a)]))) { select { case bad <- \"snapshot of %s is not a prefix of a later one\": default: } } }" % (mm["name"], mm["name"], mm["name"]))
+    L.append("\t\t\t\trtlib.Tick()")
     L.append("\t\t\t\tif withResets {")
     for mm in it["methods"][:1]:
         L.append("\t\t\t\t\tresetOne(m)")
@@ -614,7 +627,7 @@ def _run(cdir, seed, tier, root, log):
             c["pkg"], c["mock"], maxdepth, fs, " ".join(op_sexp(o) for o in script), f["case"]))
         good.append(c)
     # one main for all packages
-    main = ["package main", "", "import (", '\t"fmt"', '\t"os"', '\t"strings"', '\t"time"']
+    main = ["package main", "", "import (", '\t"fmt"', '\t"os"', '\t"strings"', '\t"time"', '\t"%s/rtlib"' % MOD]
     for c in good:
         main.append('\t%s "%s/%s"' % (c["pkg"], MOD, c["pkg"]))
     main += [")", "", "func main() {", "\tmode := os.Args[1]", "\ttype ent struct { name string; run func() ([]string, bool); stress func(int, int, bool) string; resets bool }", "\thung := 0", "\tall := []ent{"]
@@ -627,19 +640,34 @@ def _run(cdir, seed, tier, root, log):
              "\t\t\tgo func() { o, s := e.run(); rc <- res{o, s} }()",
              "\t\t\tselect {",
              "\t\t\tcase r := <-rc: fmt.Printf(\"%s\\t%s\\t%v\\n\", e.name, strings.Join(r.out, \";\"), r.stable)",
-             "\t\t\tcase <-time.After(10 * time.Second): fmt.Printf(\"%s\\tDEADLOCK\\tfalse\\n\", e.name); hung++",
+             "\t\t\tcase <-time.After(45 * time.Second): fmt.Printf(\"%s\\tDEADLOCK\\tfalse\\n\", e.name); hung++",
              "\t\t\t}",
              "\t\t\tif hung >= 3 { return }",
              "\t\t} else {",
              "\t\t\tif hung >= 2 { return }",
              "\t\t\tch := make(chan string, 1)",
              "\t\t\tgo func() { ch <- e.stress(8, 150, false) }()",
-             "\t\t\tselect { case s := <-ch: fmt.Printf(\"%s\\t%s\\n\", e.name, s); case <-time.After(20 * time.Second): fmt.Printf(\"%s\\tDEADLOCK: stress did not finish in 20s\\n\", e.name); hung++; continue }",
+             "\t\t\tif s, ok := waitProgress(ch); ok { fmt.Printf(\"%s\\t%s\\n\", e.name, s) } else { fmt.Printf(\"%s\\tDEADLOCK: stress made no progress for 20s\\n\", e.name); hung++; continue }",
              "\t\t\tif e.resets {",
              "\t\t\t\tgo func() { ch <- e.stress(8, 1200, true) }()",
-             "\t\t\t\tselect { case s := <-ch: if s != \"\" { fmt.Printf(\"%s\\t%s\\n\", e.name, s) }; case <-time.After(20 * time.Second): fmt.Printf(\"%s\\tDEADLOCK: stress with resets did not finish in 20s\\n\", e.name); hung++ }",
+             "\t\t\t\tif s, ok := waitProgress(ch); ok { if s != \"\" { fmt.Printf(\"%s\\t%s\\n\", e.name, s) } } else { fmt.Printf(\"%s\\tDEADLOCK: stress with resets made no progress for 20s\\n\", e.name); hung++ }",
              "\t\t\t}",
-             "\t\t}", "\t}", "}"]
+             "\t\t}", "\t}", "}", "",
+             "// waitProgress waits for a stress run; it gives up only when the run made no progress at all for",
+             "// 20 seconds (a deadlock), not when the machine is merely slow (cap: 10 minutes).",
+             "func waitProgress(ch chan string) (string, bool) {",
+             "\tlast, idle, total := rtlib.Ticks(), 0, 0",
+             "\tfor {",
+             "\t\tselect {",
+             "\t\tcase s := <-ch:",
+             "\t\t\treturn s, true",
+             "\t\tcase <-time.After(2 * time.Second):",
+             "\t\t\ttotal += 2",
+             "\t\t\tif p := rtlib.Ticks(); p == last { idle += 2 } else { idle, last = 0, p }",
+             "\t\t\tif idle >= 20 || total >= 600 { return \"\", false }",
+             "\t\t}",
+             "\t}",
+             "}"]
     os.makedirs(os.path.join(root, "cmd"))
     open(os.path.join(root, "cmd", "main.go"), "w").write("\n".join(main) + "\n")
     # patch: resetOne helper per package
